@@ -287,7 +287,7 @@ def _run_variant(args):
     tmp = tempfile.mkdtemp(prefix='aioslsk-verif-selftest-')
     try:
         shutil.copytree(os.path.join(src_root, 'src'), os.path.join(tmp, 'src'), ignore=shutil.ignore_patterns('__pycache__'))
-        if kind == 'seed':
+        if kind in ('seed', 'control'):
             r = subprocess.run(['patch', '-p1', '-s', '--no-backup-if-mismatch', '-i', old], cwd=tmp, capture_output=True, text=True)
             st = 'ok' if r.returncode == 0 else 'stale'
         else:
@@ -317,6 +317,13 @@ def run(pid: str, seed: int, check) -> dict:
             mp_ = os.path.join(sd, name, 'meta.json')
             if os.path.exists(mp_) and json.load(open(mp_)).get('property') == pid:
                 jobs.append((pid, 'seed', name, '', os.path.join(sd, name, 'patch.diff'), '', None, root, base_keys))
+    # refactoring controls: behaviour-preserving patches written by sub-agents for every property; all of them must leave THIS
+    # property's check silent (they are applied one at a time to a scratch copy)
+    cd = os.path.join(VERIF, 'controls')
+    if os.path.isdir(cd):
+        for name in sorted(os.listdir(cd)):
+            if name.endswith('.patch'):
+                jobs.append((pid, 'control', name[:-6], '', os.path.join(cd, name), '', None, root, base_keys))
     random.Random(seed).shuffle(jobs)
     with mp.Pool(min(16, max(1, len(jobs)))) as pool:
         results = pool.map(_run_variant, jobs)
@@ -327,7 +334,9 @@ def run(pid: str, seed: int, check) -> dict:
         'break_total': sum(1 for r in results if r[1] in ('break', 'seed') and r[3] != 'stale'),
         'keep_silent': sum(1 for r in results if r[1] == 'keep' and r[3] == 'ok'),
         'keep_total': sum(1 for r in results if r[1] == 'keep' and r[3] != 'stale'),
+        'controls_silent': sum(1 for r in results if r[1] == 'control' and r[3] == 'ok'),
+        'controls_total': sum(1 for r in results if r[1] == 'control' and r[3] != 'stale'),
         'stale': [r[2] for r in results if r[3] == 'stale'],
         'failed': failed,
-        'samples': [{'kind': r[1], 'variant': r[2], 'result': r[3], 'new_violation_keys': r[5]} for r in sorted(results, key=lambda r: (r[1], r[2]))],
+        'samples': [{'kind': r[1], 'variant': r[2], 'result': r[3], 'new_violation_keys': r[5]} for r in sorted(results, key=lambda r: (r[1], r[2])) if r[1] != 'control' or r[3] != 'ok'],
     }
